@@ -27,10 +27,10 @@ type wsNode struct {
 }
 
 type wsTok struct {
-	text  *wsNode // nil for tags
-	block bool
+	text   *wsNode // nil for tags
+	block  bool
 	lm, rm bool
-	inner string
+	inner  string
 }
 
 var wsRuns = []string{" ", "\t", "\n", "\r", "\r\n", "  ", " \n", "\n ", "\n\n", "\t \n", " \t", "\n\t ", "\r\n  "}
@@ -426,7 +426,7 @@ func init() {
 		Rule: "random documents (nesting depth <= 3) of literal texts with random whitespace runs (space, tab, CR, LF, CRLF) around {{ var }}, if/else and for constructs, every delimiter independently carrying '-' or not, {# #} comments only between two words; " +
 			"each rendered under all four TrimBlocks x LStripBlocks settings (set on the set before compiling or on the template after compiling) twice on the same compiled template and compared byte for byte with (1) the rendering of the hand-stripped source under default options and (2) the output computed directly from the generator's structure; " +
 			"20% of the cases are spaceless bodies of single-line tags, words, whitespace runs, variables, loops and nested spaceless blocks compared with an independent removal of the whitespace runs between '>' and '<'. distinct_nontrivial = distinct documents that carry at least one marker or an option-sensitive text.",
-		MinNontriv: 2000,
+		MinNontriv:  2000,
 		Assumptions: []string{"'-' or TrimBlocks directly adjacent to verbatim blocks and comments directly adjacent to a delimiter are not generated (unspecified)", "spaceless bodies contain no CR and no '<' or '>' outside tags"},
 	})
 }
